@@ -37,3 +37,106 @@ SIGNATURES = {}
 def signature(fn):
     SIGNATURES[fn.__name__] = fn
     return fn
+
+
+def _base(clause):
+    return clause.split("~")[0].split("@")[0]
+
+
+def _has_loop_op(case):
+    for op in case.get("ops", []):
+        if op[0] == "add" and op[1] == op[2]:
+            return True
+        if op[0] == "addfrom" and any(p[0] == p[1] for p in op[1]):
+            return True
+        if op[0] in ("path", "fpath", "star", "fstar", "cycle", "fcycle"):
+            ns = op[1]
+            if op[0] in ("cycle", "fcycle") and len(ns) == 1:
+                return True
+            if any(a == b for a, b in zip(ns, ns[1:])) or (op[0] in ("star", "fstar") and ns and ns[0] in ns[1:]) \
+                    or (op[0] in ("cycle", "fcycle") and ns and ns[0] == ns[-1]):
+                return True
+    return False
+
+
+@signature
+def d5_unclosed_two_instant_run(pid, case, f):
+    c, d = _base(f["clause"]), f["detail"]
+    if c == "C05.unclosed":
+        return d["run"][1] == d["run"][0] + 1
+    if c == "C05.replay":
+        P, R = set(d["presence"]), set(d["replayed"])
+        from spec import runs
+        lost = P - R
+        ok_lost = {b for (a, b) in runs(P) if b == a + 1}
+        return R <= P and lost and lost <= ok_lost
+    if c == "C10.roundtrip_presence":
+        from spec import runs
+        for k, P, Q in d["pairs"]:
+            P, Q = set(P), set(Q)
+            if not (Q <= P and (P - Q) and (P - Q) <= {b for (a, b) in runs(P) if b == a + 1}):
+                return False
+        return True
+    return False
+
+
+@signature
+def d10_directed_interactions_dedup(pid, case, f):
+    c, d = _base(f["clause"]), f["detail"]
+    if c not in ("C02.inter", "C02.inter_iter", "C02.f_inter"):
+        return False
+    if not case.get("cls") and d.get("on") not in ("to_directed",):
+        return False
+    exp, got = d["expected"], d["got"]
+    if not isinstance(got, dict) or got["n"] != len(got["set"]):
+        return False
+    es, gs = {tuple(x) for x in exp["set"]}, {tuple(x) for x in got["set"]}
+    if not gs <= es or len(gs) != got["n"]:
+        return False
+    nb = d.get("nbunch")
+    for (u, v) in es - gs:
+        if u == v or (nb is not None and v not in nb):
+            return False
+    return True
+
+
+@signature
+def d12_to_directed_single_orientation(pid, case, f):
+    return _base(f["clause"]) == "C16.to_directed_one_orientation"
+
+
+@signature
+def d14_undirected_loop_degree(pid, case, f):
+    c, d = _base(f["clause"]), f["detail"]
+    if c not in ("C02.deg", "C02.deg_iter", "C02.f_deg", "C02.deg1", "C02.size", "C02.nint", "C02.f_nint", "C02.density", "C02.deghist"):
+        return False
+    undirected = (not case.get("cls")) if d.get("on") in (None, "slice") else d.get("on", "").startswith("to_undirected")
+    if not undirected or not _has_loop_op(case):
+        return False
+    if c == "C02.density" and d.get("t") is not None:
+        return False
+    return True
+
+
+@signature
+def d15_density_at_t(pid, case, f):
+    c, d = _base(f["clause"]), f["detail"]
+    return c == "C02.density" and d.get("t") is not None and isinstance(d["got"], list) and d["got"][0] in ("f", "q") and d["got"][1] == 0
+
+
+@signature
+def d21_root_self_loop(pid, case, f):
+    c, d = _base(f["clause"]), f["detail"]
+    if c == "C15.acyclic":
+        return bool(d.get("loop_at_root"))
+    if c in ("C13.paths", "C13.all_paths"):
+        if d["unexpected"] or not d["missing"]:
+            return False
+        return bool(d.get("all_missing_start_with_root_loop"))
+    return False
+
+
+@signature
+def d23_timed_mutators_not_frozen(pid, case, f):
+    c, d = _base(f["clause"]), f["detail"]
+    return c == "C19.frozen_mutable" and d.get("call") in ("add_interaction", "add_interactions_from", "add_path", "add_star", "add_cycle")
